@@ -20,7 +20,9 @@ I32 = [0, 1, -1, 2147483647, -2147483648, 2147483646, -2147483647, 65536, -65536
 I32_BAD = [2147483648, -2147483649, 4294967296, 9223372036854775807, -9223372036854775808]
 I64 = [0, 1, -1, 2147483648, -2147483649, 9223372036854775807, -9223372036854775808, 4294967296, 10 ** 15]
 STRS = ["", "a", "\x00", "\xff", "\x00\xff\x00", "it's", 'say "hi"', "a;b", "semi;'quote", "tab\tnl\nend", "\\N", "\\",
-        "NULL", "ünï", " ", "  x  "]
+        "NULL", "ünï", " ", "  x  ",
+        # strings spelled like reserved words and symbols: they are values, not syntax
+        "true", "false", "null", "or", "and", "select", "values", ",", "*", "=", "(", ")", "on", "TRUE"]
 
 
 def good(rng, t):
